@@ -12,7 +12,7 @@ REGS32 = ["EAX", "EBX", "ECX", "EDX", "ESI", "EDI", "EBP"]
 
 class AMachine(Machine):
     chunk = 12                 # runs per forked child (fork-per-run costs 20x on this VM: page faults)
-    run_timeout = 180.0
+    run_timeout = 75.0
     isolate_shrink = True
     shrink_max_evals = 150       # every candidate is a forked run of ~1 s
     selftest_runs = 12
@@ -56,6 +56,8 @@ class AMachine(Machine):
     def gen_program(self, rng, steer):
         feat = set(f for f in self.features if rng.random() < 0.6)
         feat |= set(self.must_features)
+        if steer and self.pid in ("C49", "C20"):
+            feat.discard("multi")      # open finding: multi-store instructions are torn by a fault
         return a_sim.gen_program_x86(rng, feat), sorted(feat)
 
     must_features = []
@@ -78,6 +80,8 @@ class AMachine(Machine):
         knobs = self.gen_knobs(rng)
         cfg = {"arch": "x86_32", "backend": backend, "program": lines, "features": feat, "init_regs": init,
                "knobs": knobs, "heal": True}
+        if knobs.get("esp_off") is not None:
+            init["ESP"] = a_sim.STACK_BASE + knobs["esp_off"]
         actions = self.gen_actions(rng, cfg, steer)
         actions.sort(key=lambda a: a[0])
         return {"cfg": cfg, "actions": actions}
@@ -106,6 +110,9 @@ class AMachine(Machine):
                     break
         if any(l.startswith(("PUSH", "POP", "CALL")) for l in cfg["program"]):
             used.append(3)
+            if cfg["knobs"].get("esp_off") is not None:
+                used.append(4)
+                used.append(4)
         return used or [0]
 
     def simplify_action(self, a):
@@ -144,6 +151,8 @@ class AMachine(Machine):
                 c2 = dict(case, cfg=dict(cfg, backend=backend))
                 has_hw = any(a[1] == "hw" for a in case["actions"])
                 if has_hw:
+                    # the run under test goes first here: make sure the program terminates at all
+                    a_sim.Reference(cfg["arch"], prog, cfg["init_regs"], smc)
                     run = a_sim.TestRun(self.pid, c2, prog, None, log, probes)
                     run.run()
                     stamps = {}
@@ -322,9 +331,14 @@ class C22(AMachine):
                 acts.append([cp, "bp_add", ["L", rng.randrange(16)] if rng.random() < 0.5 else rng.randrange(200), rng.randrange(3)])
         # host writes followed at once by another host action at the same control point
         for a in list(acts):
-            if a[1] == "hw" and rng.random() < 0.3:
-                acts.append([a[0], "bp_add", rng.randrange(200), rng.randrange(3)])
+            if a[1] == "hw" and rng.random() < 0.5:
+                acts.append([a[0], "bp_add", ["L", rng.randrange(16)] if rng.random() < 0.5 else rng.randrange(200), rng.randrange(3)])
         return acts
+
+    def gen_knobs(self, rng):
+        k = AMachine.gen_knobs(self, rng)
+        k["warm"] = rng.random() < 0.4       # code that is already translated when it gets overwritten
+        return k
 
     def run(self, case, keep_log=False):
         res = AMachine.run(self, case, keep_log)
@@ -336,6 +350,13 @@ class C22(AMachine):
 
 class C49(AMachine):
     pid = "C49"
+
+    def gen_knobs(self, rng):
+        k = AMachine.gen_knobs(self, rng)
+        if rng.random() < 0.3:
+            k["esp_off"] = rng.choice([0x4, 0x8, 0x10, 0x1c, 0x20])     # stack pointer just above a page boundary
+        return k
+
     title = "a faulting instruction has no effect and leaves pc on it"
     rule = ("seeded (program, schedule) pairs as C21 with memory-heavy programs and a fault injector: at seeded control points a data "
             "page is unmapped or loses R or W (incl. the second page of a straddling access); at the fault stop pc, flags and the "
@@ -357,11 +378,11 @@ class C49(AMachine):
         for _ in range(rng.choice([1, 1, 2, 3, 6])):
             cp = rng.choice([rng.randint(1, 4), rng.randint(1, 10), self._cp(rng)])
             r = rng.random()
-            page = rng.choice(used) if rng.random() < 0.8 else rng.randrange(4)
+            page = rng.choice(used) if rng.random() < 0.8 else rng.randrange(5)
             if r < 0.5:
                 acts.append([cp, "unmap", page])
             elif r < 0.85:
-                acts.append([cp, "perm", {0: 0, 1: 1, 2: 0, 3: 2}[page], rng.randrange(3)])
+                acts.append([cp, "perm", {0: 0, 1: 1, 2: 0, 3: 2, 4: 3}[page], rng.randrange(3)])
             elif r < 0.95:
                 acts.append([cp, "opt", rng.choice([1, 2, 3, 5, 8, 50]), rng.choice([0, 1, 2, 3, 7])])
             else:
@@ -390,6 +411,9 @@ class C20(AMachine):
         # one block per call on both backends: their control points coincide, so one schedule
         # (actions keyed by control-point number) is the same history for both replicas
         case["cfg"]["knobs"]["quantum"] = 1
+        if rng.random() < 0.25:
+            case["cfg"]["knobs"]["esp_off"] = rng.choice([0x4, 0x8, 0x10, 0x1c, 0x20])
+            case["cfg"]["init_regs"]["ESP"] = a_sim.STACK_BASE + case["cfg"]["knobs"]["esp_off"]
         for a in case["actions"]:
             if a[1] == "opt":
                 a[3] = 1
